@@ -214,6 +214,7 @@ func C09(p *load.Prog, r *oblig.Run) {
 	c07CopyWalksAll(p, r)
 	c07CopyThroughFilter(p, r)
 	c07Bookkeeping(p, r)
+	c07EqualityReadsOnly(p, r)
 	r.Rule("R09.c", "a merge function returns nil or a node computed from both operands (nothing of the right node is dropped by a shortcut)", 1)
 	g := cg.New(p, false)
 	mn := p.MustFunc(load.PkgRoot, "MergeNodes")
@@ -367,6 +368,7 @@ func C07(p *load.Prog, r *oblig.Run) {
 	c07CopyWalksAll(p, r)
 	c07CopyThroughFilter(p, r)
 	c07Bookkeeping(p, r)
+	c07EqualityReadsOnly(p, r)
 	g := cg.New(p, false)
 	dc := p.MustFunc(load.PkgRoot, "DeepCopy")
 	fl := p.MustFunc(load.PkgRoot, "Filter")
